@@ -189,8 +189,16 @@ func (c *gctx) keyTypeNode(label string, kind int) string {
 		// the shortcut names a reference to the string type (or a list that also names itself)
 		alias := fmt.Sprintf("@ka%d", c.keyType)
 		a := &ref.SNode{Kind: ref.SRef, Names: []string{name}}
-		if c.draw(0, 1, label+"AliasSelf") == 0 {
+		switch c.draw(0, 2, label+"AliasSelf") {
+		case 0:
 			a.Names = append(a.Names, alias)
+		case 1:
+			// a diamond: two further aliases of the same string type
+			s1, s2 := alias+"s", alias+"l"
+			c.g.Types[s1] = &ref.SNode{Kind: ref.SRef, Names: []string{name}}
+			c.g.Types[s2] = &ref.SNode{Kind: ref.SRef, Names: []string{name}}
+			c.order = append(c.order, s1, s2)
+			a.Names = []string{s1, s2}
 		}
 		c.g.Types[alias] = a
 		c.order = append(c.order, alias)
